@@ -329,3 +329,261 @@ Proof.
   rewrite int_of_str_of_Z by (apply big_small; unfold big; lia).
   cbn [bind py_Centipoints py_mul arith as_num py_int]. reflexivity.
 Qed.
+
+(** * float quantum: percentages (crop, gradient stops, lumMod/lumOff) read back within 1/100000 *)
+From Coq Require Import QArith Qabs Lqa Qpower.
+Local Open Scope Q_scope.
+
+Definition pct_lo : pyfloat := Fin (-5902958103587057) (-38).
+Definition pct_hi : pyfloat := Fin (5902958100838277) (-38).
+
+Lemma pct_to_xml_inv m e s : ST_Percentage__to_xml (PFloat (Fin m e)) = Ok (PStr s) ->
+  exists m1 e1 k, f_mul (Fin m e) (Fin 100000 0) = Fin m1 e1 /\ f_round (Fin m1 e1) = Ok k /\ s = str_of_Z k
+    /\ ~ (Qv (Fin m e) < Qv pct_lo) /\ ~ (Qv pct_hi < Qv (Fin m e)).
+Proof.
+  unfold ST_Percentage__to_xml, ST_Percentage__validate, ST_Percentage__validate_float_in_range, ST_Percentage__validate_float,
+    ST_Percentage__convert_to_xml.
+  cbn [py_isinstance existsb isinstance1 orb as_bool bind py_truth negb py_lt py_gt py_order as_num cmp_num].
+  fold pct_lo pct_hi. unfold pct_lo at 1, pct_hi at 1. rewrite !f_cmp_Q. fold pct_lo pct_hi.
+  destruct (Qcompare_spec (Qv (Fin m e)) (Qv pct_lo)) as [C1|C1|C1]; cbn [bind]; try (intros X; discriminate X).
+  all: destruct (Qcompare_spec (Qv (Fin m e)) (Qv pct_hi)) as [C2|C2|C2]; cbn [bind]; try (intros X; discriminate X).
+  all: assert (N1 : ~ Qv (Fin m e) < Qv pct_lo) by lra.
+  all: assert (N2 : ~ Qv pct_hi < Qv (Fin m e)) by lra.
+  all: cbn [py_mul arith as_num num_float bind].
+  all: destruct (f_mul (Fin m e) (Fin 100000 0)) as [m1 e1| | |] eqn:Em; cbn [bind py_round]; try (intros X; discriminate X).
+  all: destruct (f_round (Fin m1 e1)) as [k|] eqn:Ek; cbn [bind py_int py_str]; try (intros X; discriminate X).
+  all: cbn [bind]; intros H; injection H as <-; exists m1, e1, k; auto.
+Qed.
+
+
+Lemma pct_from_xml k : (Z.abs k < 2 ^ 53)%Z ->
+  ST_Percentage__from_xml (PStr (str_of_Z k)) = Ok (PFloat (fl_div_e k 100000 0)).
+Proof.
+  intros Hk. unfold ST_Percentage__from_xml, ST_Percentage__convert_from_xml. cbn [py_in bind].
+  rewrite (no_letter 37%N _ (str_of_Z_chars k)) by reflexivity. cbn [bind py_int].
+  rewrite int_of_str_of_Z.
+  2:{ eapply Z.lt_le_trans; [apply Hk|]. apply Z.pow_le_mono; unfold int_max_str_digits; lia. }
+  cbn [bind py_truediv arith as_num num_float]. rewrite (f_of_Z_small k Hk).
+  destruct (Z.eqb_spec k 0) as [->|Hk0]; cbn [bind f_div f_is_zero]; reflexivity.
+Qed.
+
+Lemma Qabs_le_iff x y : Qabs x <= y <-> - y <= x /\ x <= y.
+Proof. apply Qabs_Qle_condition. Qed.
+
+Lemma eps_small : p2 (-1075) <= 1 # 1000000000000000000000000000000.
+Proof. vm_compute. discriminate. Qed.
+Lemma p2_m53 : p2 (-53) == 1 # 9007199254740992. Proof. reflexivity. Qed.
+Lemma p2_m52 : p2 (-52) == 1 # 4503599627370496. Proof. reflexivity. Qed.
+Lemma Qv_pct_lo : Qv pct_lo == - (5902958103587057 # 274877906944). Proof. reflexivity. Qed.
+Lemma Qv_pct_hi : Qv pct_hi == 5902958100838277 # 274877906944. Proof. reflexivity. Qed.
+Lemma Qv_100000 : Qv (Fin 100000 0) == 100000. Proof. reflexivity. Qed.
+
+(** crop, brightness components, gradient stops: what is written reads back within 1/100000 *)
+Theorem pct_roundtrip m e s : ST_Percentage__to_xml (PFloat (Fin m e)) = Ok (PStr s) ->
+  exists r, ST_Percentage__from_xml (PStr s) = Ok (PFloat r) /\ f_is_finite r = true
+            /\ Qabs (Qv r - Qv (Fin m e)) <= 1 # 100000.
+Proof.
+  intros H. destruct (pct_to_xml_inv _ _ _ H) as [m1 [e1 [k [Em [Ek [-> [N1 N2]]]]]]].
+  set (v := Qv (Fin m e)) in *. set (x1 := Qv (Fin m1 e1)).
+  pose proof (f_mul_rel _ _ _ _ _ _ Em) as Ha. fold v x1 in Ha. rewrite Qv_100000 in Ha.
+  pose proof (f_round_Q _ _ Ek) as Hb. fold x1 in Hb.
+  rewrite Qv_pct_lo in N1. rewrite Qv_pct_hi in N2.
+  pose proof eps_small as He. pose proof (p2_pos (-1075)) as He0. set (eps := p2 (-1075)) in *.
+  assert (HA : Qabs (v * 100000) <= 2147483649) by (apply Qabs_le_iff; split; lra).
+  rewrite p2_m53 in Ha.
+  assert (Ha' : Qabs (x1 - v * 100000) <= 1 # 1000000).
+  { eapply Qle_trans; [apply Ha|]. lra. }
+  apply Qabs_le_iff in Ha'. apply Qabs_le_iff in Hb. apply Qabs_le_iff in HA.
+  assert (Hkq : - 2147483651 <= inject_Z k <= 2147483651) by lra.
+  assert (Hk : (Z.abs k < 2 ^ 53)%Z).
+  { pose proof Hkq as [K1 K2]. change (- 2147483651) with (inject_Z (- 2147483651)) in K1.
+    change 2147483651 with (inject_Z 2147483651) in K2. rewrite <- Zle_Qle in K1, K2. lia. }
+  rewrite (pct_from_xml k Hk).
+  destruct (Z.eq_dec k 0) as [->|Hk0].
+  - exists (Fin 0 0). split; [reflexivity|]. split; [reflexivity|].
+    change (Qv (Fin 0 0)) with 0. change (inject_Z 0) with 0 in Hb. apply Qabs_le_iff. lra.
+  - assert (Hs : (0 <= Z.log2 100000 - Z.log2 (Z.abs k) + 55)%Z).
+    { change (Z.log2 100000) with 16%Z. assert (Z.log2 (Z.abs k) < 53)%Z by (apply Z.log2_lt_pow2; lia). lia. }
+    destruct (fl_div_finite k 100000 ltac:(lia) Hk0 Hs) as [m2 [e2 Er]].
+    exists (Fin m2 e2). rewrite Er. split; [reflexivity|]. split; [reflexivity|].
+    pose proof (fl_div_rel k 100000 0 m2 e2 ltac:(lia) Hk0 Hs Er) as Hc.
+    change (p2 0) with 1 in Hc. fold eps in Hc. rewrite p2_m52 in Hc.
+    change (inject_Z 100000) with 100000 in Hc.
+    destruct Hkq as [K1 K2].
+    assert (HK : Qabs (inject_Z k / 100000 * 1) <= 21475).
+    { apply Qabs_le_iff. setoid_replace (inject_Z k / 100000 * 1) with (inject_Z k * (1 # 100000)) by field. split; lra. }
+    assert (Hc' : Qabs (Qv (Fin m2 e2) - inject_Z k / 100000 * 1) <= 1 # 100000000000).
+    { eapply Qle_trans; [apply Hc|]. lra. }
+    apply Qabs_le_iff in Hc'. apply Qabs_le_iff. fold v.
+    setoid_replace (inject_Z k / 100000 * 1) with (inject_Z k * (1 # 100000)) in Hc' by field. split; lra.
+Qed.
+
+(** * float quantum: angles (rotation) read back within 1/60000 degree modulo 360 *)
+(** v % 360.0: a finite float within 2^-53 * 360 (+ 2^-1075) of v - 360 j for an integer j with 0 <= v - 360 j <= 360 *)
+Lemma f_mod_360 m e x : f_mod (Fin m e) (Fin 360 0) = Ok x ->
+  exists m0 e0 (j : Z), x = Fin m0 e0
+    /\ 0 <= Qv (Fin m e) - 360 * inject_Z j <= 360
+    /\ Qabs (Qv (Fin m0 e0) - (Qv (Fin m e) - 360 * inject_Z j)) <= p2 (-53) * 360 + p2 (-1075).
+Proof.
+  unfold f_mod. cbn [f_is_zero]. change (360 =? 0)%Z with false. cbn iota.
+  destruct (Z.eqb_spec m 0) as [->|Hm].
+  { intros [= <-]. exists 0%Z, 0%Z, 0%Z. split; auto. cbn [Qv]. change (inject_Z 0) with 0.
+    split; [split; lra|]. setoid_replace (0 * p2 0 - (0 * p2 e - 360 * 0)) with 0 by ring.
+    pose proof (p2_pos (-53)). pose proof (p2_pos (-1075)). change (Qabs 0) with 0. lra. }
+  set (E := Z.min e 0). set (A := Z.shiftl m (e - E)). set (B := Z.shiftl 360 (0 - E)).
+  assert (HEe : (E <= e)%Z) by (unfold E; lia). assert (HE0 : (E <= 0)%Z) by (unfold E; lia).
+  assert (HA : inject_Z A * p2 E == Qv (Fin m e)) by (unfold A; cbn [Qv]; apply shiftl_Q; auto).
+  assert (HB : inject_Z B * p2 E == 360).
+  { unfold B. rewrite shiftl_Q by auto. reflexivity. }
+  assert (HBpos : (0 < B)%Z).
+  { unfold B. rewrite Z.shiftl_mul_pow2 by lia. assert (0 < 2 ^ (0 - E))%Z by (apply Z.pow_pos_nonneg; lia). lia. }
+  pose proof (Z.quot_rem' A B) as Hqr. pose proof (Z.rem_bound_abs A B ltac:(lia)) as Hrb.
+  set (r := Z.rem A B) in *. set (q := Z.quot A B) in *.
+  pose proof (p2_pos E) as PE. pose proof (p2_pos (-53)) as P53. pose proof (p2_pos (-1075)) as Peps.
+  assert (Hval : inject_Z r * p2 E == Qv (Fin m e) - 360 * inject_Z q).
+  { rewrite <- HA, <- HB. replace r with (A - B * q)%Z by lia.
+    replace (A - B * q)%Z with (A + - (B * q))%Z by lia. rewrite inject_Z_plus, inject_Z_opp, inject_Z_mult. ring. }
+  destruct (Z.eqb_spec r 0) as [Hr0|Hr0].
+  { intros [= <-]. exists 0%Z, 0%Z, q. split; auto. rewrite Hr0 in Hval. change (inject_Z 0) with 0 in Hval.
+    split; [split; lra|]. cbn [Qv] in *. change (inject_Z 0) with 0.
+    setoid_replace (0 * p2 0 - (inject_Z m * p2 e - 360 * inject_Z q)) with (- (0 * p2 E)) by (rewrite Hval; ring).
+    apply Qabs_le_iff; split; lra. }
+  change (360 <? 0)%Z with false.
+  destruct (Z.ltb_spec r 0) as [Hneg|Hpos]; cbn [Bool.eqb].
+  - (* negative remainder: 360 is added in floating point *)
+    assert (HX : f_add (Fin r E) (Fin 360 0) = round_dy (r + B) E).
+    { cbn [f_add]. destruct (Z.eqb_spec r 0); [contradiction|]. change (360 =? 0)%Z with false. cbn iota.
+      replace (Z.min E 0) with E by lia. replace (E - E)%Z with 0%Z by lia. rewrite Z.shiftl_0_r. reflexivity. }
+    rewrite HX. intros [= <-].
+    assert (Hsum : inject_Z (r + B) * p2 E == Qv (Fin m e) - 360 * inject_Z (q - 1)).
+    { rewrite inject_Z_plus. replace (q - 1)%Z with (q + (-1))%Z by lia. rewrite inject_Z_plus.
+      change (inject_Z (-1)) with (-1). setoid_replace ((inject_Z r + inject_Z B) * p2 E) with (inject_Z r * p2 E + inject_Z B * p2 E) by ring.
+      rewrite Hval, HB. ring. }
+    assert (Hrange : 0 <= inject_Z (r + B) * p2 E <= 360).
+    { assert (0 <= r + B <= B)%Z by lia. split.
+      - apply Qmult_le_0_compat; [change 0 with (inject_Z 0); rewrite <- Zle_Qle; lia|lra].
+      - rewrite <- HB. apply Qmult_le_compat_r; [rewrite <- Zle_Qle; lia|lra]. }
+    destruct (round_dy_finite (r + B) E) as [m0 [e0 Hfin]].
+    { assert (Z.log2 (Z.abs (r + B)) <= Z.log2 B)%Z by (apply Z.log2_le_mono; lia).
+      assert (Z.log2 B = 8 + (0 - E))%Z.
+      { unfold B. rewrite Z.shiftl_mul_pow2 by lia. rewrite Z.log2_mul_pow2 by lia. change (Z.log2 360) with 8%Z. lia. }
+      lia. }
+    exists m0, e0, (q - 1)%Z. split; auto. split; [rewrite <- Hsum; auto|].
+    pose proof (round_dy_rel _ _ _ _ Hfin) as Hrel. rewrite <- Hsum.
+    eapply Qle_trans; [apply Hrel|].
+    assert (Qabs (inject_Z (r + B) * p2 E) <= 360) by (apply Qabs_le_iff; split; lra).
+    assert (p2 (-53) * Qabs (inject_Z (r + B) * p2 E) <= p2 (-53) * 360).
+    { rewrite !(Qmult_comm (p2 (-53))). apply Qmult_le_compat_r; lra. }
+    lra.
+  - (* positive remainder *)
+    intros [= <-].
+    assert (Hrange : 0 <= inject_Z r * p2 E <= 360).
+    { assert (0 <= r <= B)%Z by lia. split.
+      - apply Qmult_le_0_compat; [change 0 with (inject_Z 0); rewrite <- Zle_Qle; lia|lra].
+      - rewrite <- HB. apply Qmult_le_compat_r; [rewrite <- Zle_Qle; lia|lra]. }
+    destruct (round_dy_finite r E) as [m0 [e0 Hfin]].
+    { assert (Z.log2 (Z.abs r) <= Z.log2 B)%Z by (apply Z.log2_le_mono; lia).
+      assert (Z.log2 B = 8 + (0 - E))%Z.
+      { unfold B. rewrite Z.shiftl_mul_pow2 by lia. rewrite Z.log2_mul_pow2 by lia. change (Z.log2 360) with 8%Z. lia. }
+      lia. }
+    exists m0, e0, q. split; auto. split; [rewrite <- Hval; auto|].
+    pose proof (round_dy_rel _ _ _ _ Hfin) as Hrel. rewrite <- Hval.
+    eapply Qle_trans; [apply Hrel|].
+    assert (Qabs (inject_Z r * p2 E) <= 360) by (apply Qabs_le_iff; split; lra).
+    assert (p2 (-53) * Qabs (inject_Z r * p2 E) <= p2 (-53) * 360).
+    { rewrite !(Qmult_comm (p2 (-53))). apply Qmult_le_compat_r; lra. }
+    lra.
+Qed.
+
+Lemma py_float_inf : py_float (PStr [105; 110; 102]%N) = Ok (PFloat PInf). Proof. vm_compute. reflexivity. Qed.
+Lemma py_float_ninf : py_float (PStr [45; 105; 110; 102]%N) = Ok (PFloat NInf). Proof. vm_compute. reflexivity. Qed.
+Lemma f_of_Z_60000 : f_of_Z 60000 = Ok (Fin 60000 0). Proof. vm_compute. reflexivity. Qed.
+
+Definition turn : Z := 21600000%Z.
+
+Lemma angle_to_xml_inv m e s : ST_Angle__to_xml (PFloat (Fin m e)) = Ok (PStr s) ->
+  exists m0 e0 m1 e1 k, f_mod (Fin m e) (Fin 360 0) = Ok (Fin m0 e0)
+    /\ f_mul (Fin m0 e0) (Fin 60000 0) = Fin m1 e1 /\ f_round (Fin m1 e1) = Ok k /\ s = str_of_Z (k mod turn).
+Proof.
+  unfold ST_Angle__to_xml, ST_Angle__validate, BaseFloatType__validate, ST_Angle__convert_to_xml.
+  rewrite !py_float_inf, !py_float_ninf.
+  cbn [py_isinstance existsb isinstance1 orb as_bool bind py_truth negb py_ne py_eqb as_num cmp_num f_cmp].
+  rewrite Z.compare_refl. cbn [bind py_in existsb py_eqb as_num cmp_num f_cmp orb negb].
+  cbn [py_mul arith as_num num_float bind]. rewrite f_of_Z_60000. cbn [bind].
+  destruct (f_mul (Fin m e) (Fin 60000 0)) as [ms es| | |] eqn:Es;
+    cbn [bind py_in existsb py_eqb as_num cmp_num f_cmp orb negb]; try (intros X; discriminate X).
+  2:{ pose proof (c09_round_dy_not_nan (m * 60000) (e + 0)) as N. cbn [f_mul] in Es. contradiction. }
+  cbn [py_mod arith as_num num_float bind].
+  destruct (f_mod (Fin m e) (Fin 360 0)) as [x0|er] eqn:Emod; cbn [bind]; [|intros X; discriminate X].
+  destruct (f_mod_360 _ _ _ Emod) as [m0 [e0 [j [-> _]]]].
+  cbn [py_mul arith as_num num_float bind]. rewrite f_of_Z_60000. cbn [bind].
+  destruct (f_mul (Fin m0 e0) (Fin 60000 0)) as [m1 e1| | |] eqn:Em; cbn [bind py_round]; try (intros X; discriminate X).
+  destruct (f_round (Fin m1 e1)) as [k|] eqn:Ek; cbn [bind py_int py_mod arith as_num]; [|intros X; discriminate X].
+  change (21600000 =? 0)%Z with false. cbn iota. cbn [bind py_str].
+  intros H. injection H as <-. exists m0, e0, m1, e1, k. auto.
+Qed.
+
+Lemma angle_from_xml rot : (0 <= rot < turn)%Z ->
+  ST_Angle__from_xml (PStr (str_of_Z rot)) = Ok (PFloat (fl_div_e rot 60000 0)).
+Proof.
+  intros Hr. unfold ST_Angle__from_xml, ST_Angle__convert_from_xml. cbn [py_int bind].
+  rewrite int_of_str_of_Z by (apply big_small; unfold big, turn in *; lia).
+  cbn [bind py_mod arith as_num]. change (21600000 =? 0)%Z with false. cbn iota.
+  fold turn. rewrite Z.mod_small by auto. cbn [bind py_float].
+  rewrite f_of_Z_small by (unfold turn in *; lia).
+  cbn [bind py_truediv arith as_num num_float]. rewrite f_of_Z_60000.
+  destruct (Z.eqb_spec rot 0) as [->|H0]; cbn [bind f_div f_is_zero]; reflexivity.
+Qed.
+
+Lemma Qv_60000 : Qv (Fin 60000 0) == 60000. Proof. reflexivity. Qed.
+
+(** rotation (and gradient angle): for EVERY finite float the simple type accepts, the written text reads
+    back within 1/60000 degree of the assigned angle modulo 360 *)
+Theorem angle_roundtrip m e s : ST_Angle__to_xml (PFloat (Fin m e)) = Ok (PStr s) ->
+  exists r (j : Z), ST_Angle__from_xml (PStr s) = Ok (PFloat r) /\ f_is_finite r = true
+    /\ Qabs (Qv r - (Qv (Fin m e) - 360 * inject_Z j)) <= 1 # 60000.
+Proof.
+  intros H. destruct (angle_to_xml_inv _ _ _ H) as [m0 [e0 [m1 [e1 [k [Emod [Em [Ek ->]]]]]]]].
+  destruct (f_mod_360 _ _ _ Emod) as [m0' [e0' [j0 [E0 [Hrange Hx0]]]]]. injection E0 as <- <-.
+  set (v := Qv (Fin m e)) in *. set (x0 := Qv (Fin m0 e0)) in *. set (x1 := Qv (Fin m1 e1)).
+  pose proof (f_mul_rel _ _ _ _ _ _ Em) as Ha. fold x0 x1 in Ha. rewrite Qv_60000 in Ha.
+  pose proof (f_round_Q _ _ Ek) as Hb. fold x1 in Hb.
+  pose proof eps_small as He. pose proof (p2_pos (-1075)) as He0. set (eps := p2 (-1075)) in *.
+  rewrite p2_m53 in Ha, Hx0. destruct Hrange as [R1 R2].
+  apply Qabs_le_iff in Hx0. destruct Hx0 as [X1 X2].
+  assert (HA : Qabs (x0 * 60000) <= 21660000) by (apply Qabs_le_iff; split; lra).
+  assert (Ha' : Qabs (x1 - x0 * 60000) <= 1 # 100000000).
+  { eapply Qle_trans; [apply Ha|]. lra. }
+  apply Qabs_le_iff in Ha'. destruct Ha' as [A1 A2]. apply Qabs_le_iff in Hb. destruct Hb as [B1 B2].
+  set (rot := (k mod turn)%Z). set (t := (k / turn)%Z).
+  assert (Hrot : (0 <= rot < turn)%Z) by (apply Z.mod_pos_bound; unfold turn; lia).
+  assert (Hk : k = (turn * t + rot)%Z) by (apply Z.div_mod; unfold turn; lia).
+  rewrite (angle_from_xml rot Hrot).
+  assert (Hkq : inject_Z k == 21600000 * inject_Z t + inject_Z rot).
+  { rewrite Hk, inject_Z_plus, inject_Z_mult. reflexivity. }
+  assert (Hrq : 0 <= inject_Z rot <= 21600000).
+  { split; [change 0 with (inject_Z 0)|change 21600000 with (inject_Z 21600000)]; rewrite <- Zle_Qle; unfold turn in Hrot; lia. }
+  destruct Hrq as [Q1 Q2].
+  destruct (Z.eq_dec rot 0) as [Hr0|Hr0].
+  - rewrite Hr0. exists (Fin 0 0), (j0 + t)%Z. split; [reflexivity|]. split; [reflexivity|].
+    change (Qv (Fin 0 0)) with 0. rewrite Hr0 in Hkq. change (inject_Z 0) with 0 in Hkq.
+    rewrite inject_Z_plus. apply Qabs_le_iff. split; lra.
+  - assert (Hs : (0 <= Z.log2 60000 - Z.log2 (Z.abs rot) + 55)%Z).
+    { change (Z.log2 60000) with 15%Z. assert (Z.log2 (Z.abs rot) < 25)%Z by (apply Z.log2_lt_pow2; unfold turn in *; lia). lia. }
+    destruct (fl_div_finite rot 60000 ltac:(lia) Hr0 Hs) as [m2 [e2 Er]].
+    exists (Fin m2 e2), (j0 + t)%Z. rewrite Er. split; [reflexivity|]. split; [reflexivity|].
+    pose proof (fl_div_rel rot 60000 0 m2 e2 ltac:(lia) Hr0 Hs Er) as Hc.
+    change (p2 0) with 1 in Hc. fold eps in Hc. rewrite p2_m52 in Hc. change (inject_Z 60000) with 60000 in Hc.
+    setoid_replace (inject_Z rot / 60000 * 1) with (inject_Z rot * (1 # 60000)) in Hc by field.
+    assert (HK : Qabs (inject_Z rot * (1 # 60000)) <= 360) by (apply Qabs_le_iff; split; lra).
+    assert (Hc' : Qabs (Qv (Fin m2 e2) - inject_Z rot * (1 # 60000)) <= 1 # 1000000000000).
+    { eapply Qle_trans; [apply Hc|]. lra. }
+    apply Qabs_le_iff in Hc'. destruct Hc' as [C1 C2].
+    rewrite inject_Z_plus. apply Qabs_le_iff. split; lra.
+Qed.
+
+(** * the enumeration value tables carry exactly the tokens of the C11 enumeration lists *)
+Definition strs_same (a b : list str) : bool :=
+  forallb (fun x => mem_str x b) a && forallb (fun x => mem_str x a) b.
+Lemma enum_ties_ok : forallb (fun p => strs_same (fst p) (snd p)) enum_ties = true.
+Proof. vm_compute. reflexivity. Qed.
